@@ -611,6 +611,13 @@ def _heuristic_pairs(asts, ref, cur_units, cur_sigs, accepted, prot, prefixes, r
                 twins = [o for o in r_missing if rb[o] == rb[old]]
                 if len(cands) == 1 and len(twins) == 1 and ok_pair(old, cands[0]):
                     lm[cands[0]] = old
+            # what is left, in order of first binding, when the counts agree (any bijection is an alpha-renaming)
+            r_left = [n for n in rorder if n not in cnames and n not in lm.values()]
+            c_left = [n for n in corder if n not in rnames and n not in lm]
+            if r_left and len(r_left) == len(c_left) and len(r_left) <= 4:
+                for old, new in zip(r_left, c_left):
+                    if ok_pair(old, new) and rb[old][0] == cb[new][0]:
+                        lm[new] = old
             if not lm:
                 accepted.pop(("loc", rel) + ck, None)
 
